@@ -1087,6 +1087,9 @@ func main() {
 			panic("scenario step failed: " + a + " " + e)
 		}
 	}
+	attempt := func(a, e string) {
+		run.Count("scenario-attempt:" + a + "/" + e)
+	}
 	sys, nam, ent := types.AergoSystem, types.AergoName, types.AergoEnterprise
 	a0 := types.EncodeAddress(w.addrs[0])
 	pid39 := "16Uiu2HAmPZE7gT1hF2bjpg1UVH65xyNUbBVRf3mBFBJpz3tgLGGt"
@@ -1138,7 +1141,7 @@ func main() {
 
 	// phase 3: votes are cast; account 1 votes for a 34-byte peer id (a valid multihash, accepted by every check)
 	must(one(w, 0, sys, `{"Name":"v1voteBP","Args":["`+pid39+`"]}`, nil, true))
-	must(one(w, 1, sys, `{"Name":"v1voteBP","Args":["`+qm34+`"]}`, nil, true))
+	attempt(one(w, 1, sys, `{"Name":"v1voteBP","Args":["`+qm34+`"]}`, nil, true)) // refused once candidates must be 39 bytes
 	must(one(w, 0, sys, `{"Name":"v1voteDAO","Args":["BPCOUNT","5"]}`, nil, true))
 	must(one(w, 0, ent, `{"Name":"setConf","Args":["rpcpermissions","dGVzdA==:RW","Y2VydA==:R"]}`, nil, true))
 	must(one(w, 0, ent, `{"Name":"setConf","Args":["accountwhite","`+a0+`"]}`, nil, true))
@@ -1152,7 +1155,7 @@ func main() {
 	batch(w, "4-whitelist-on", []int{0, 1}, 0)
 
 	// phase 5: the admin adds a 3-byte "address" (accepted: DecodeAddress takes names): the admin list stops being a multiple of 33 bytes
-	must(one(w, 0, ent, `{"Name":"appendAdmin","Args":["abc"]}`, nil, true))
+	attempt(one(w, 0, ent, `{"Name":"appendAdmin","Args":["abc"]}`, nil, true)) // refused once admins must be 33 bytes
 	{
 		g := &gen{w: w, rng: rng}
 		g.structured(false)
